@@ -3,6 +3,9 @@ use tasim::gen::Tier;
 use tasim::report::{self, Ctx};
 use tasim::scenario::ReplayFile;
 
+#[global_allocator]
+static GLOBAL: tasim::alloc::CountingAlloc = tasim::alloc::CountingAlloc;
+
 fn usage() -> ! {
     eprintln!("usage: tasim <C04|C05|C06|C12|C17|C18> <quick|thorough> | tasim replay <file>");
     std::process::exit(2);
@@ -30,6 +33,11 @@ fn main() {
         let _ = report::CTX.set(Ctx { prop: rf.property.clone(), tier: "quick".into(), seed: rf.seed, jobs, verif: verif.clone(), known: vec![], dry: true });
         let v = match rf.property.as_str() {
             "C04" => tasim::c04::exec_plain(&rf.scenario),
+            "C05" => tasim::c05::exec_plain(&rf.scenario),
+            "C06" => tasim::c06::exec_plain(&rf.scenario),
+            "C12" => tasim::c12::exec_plain(&rf.scenario),
+            "C17" => tasim::c17::exec_plain(&rf.scenario),
+            "C18" => tasim::c18::exec_plain(&rf.scenario),
             p => {
                 eprintln!("harness error: no executor for {}", p);
                 std::process::exit(2)
@@ -62,6 +70,12 @@ fn main() {
     println!("tasim property={} tier={} VERIF_SEED={} jobs={}", args[1], args[2], seed, jobs);
     let code = match args[1].as_str() {
         "C04" => tasim::c04::run(tier),
+        "C05" => tasim::c05::run(tier),
+        "C05-child" => tasim::c05::child(tier),
+        "C06" => tasim::c06::run(tier),
+        "C12" => tasim::c12::run(tier),
+        "C17" => tasim::c17::run(tier),
+        "C18" => tasim::c18::run(tier),
         _ => usage(),
     };
     std::process::exit(code);
